@@ -39,11 +39,16 @@ type probeEnv struct {
 func (p *probeEnv) lookup(name string) (mval, bool) { v, ok := p.vars[name]; return v, ok }
 
 func (p *probeEnv) callFn(name string, args []mval) (mval, bool, error) {
-	return probeCall(name, args, &p.log)
+	return probeCallSet(name, args, &p.log, func(name string, v mval) { p.vars[name] = v })
 }
 
 // probeCall implements pt/pf/pb/pn/ps for both the model and the real host functions.
 func probeCall(name string, args []mval, log *[]string) (mval, bool, error) {
+	return probeCallSet(name, args, log, nil)
+}
+
+// probeCallSet: setter, when not nil, is what the function "setvar" writes through.
+func probeCallSet(name string, args []mval, log *[]string, setter func(name string, v mval)) (mval, bool, error) {
 	show := func() string {
 		parts := make([]string, len(args))
 		for i, a := range args {
@@ -63,6 +68,16 @@ func probeCall(name string, args []mval, log *[]string) (mval, bool, error) {
 		return nil
 	}
 	switch name {
+	case "setvar":
+		// a host function that writes a number variable in the runner's storer and returns the value written
+		if len(args) != 2 || args[0].T != 's' || args[1].T != 'n' {
+			return mval{}, false, evalErrf("setvar expects a name and a number")
+		}
+		if setter != nil {
+			setter(args[0].S, args[1])
+		}
+		*log = append(*log, show())
+		return args[1], true, nil
 	case "number", "bool", "string":
 		// C19: string/number/bool of a value already of that type return it unchanged (other argument types are not
 		// modelled here: the case is discarded)
@@ -179,7 +194,11 @@ func decideC02(c c02Case, panicIsFailure bool) Verdict {
 	// an expression must not depend on its having been evaluated before
 	src := "title: Start\n---\n{cap(" + printExpr(c.E, nil) + ")}\n<<jump Start>>\n===\n"
 	expr := printExpr(c.E, nil)
-	env := &probeEnv{vars: c.Vars}
+	modelVars := map[string]mval{}
+	for k, v := range c.Vars {
+		modelVars[k] = v
+	}
+	env := &probeEnv{vars: modelVars}
 
 	storer := variable.NewInMemoryStorer()
 	loadStore(storer, c.Vars)
@@ -189,6 +208,13 @@ func decideC02(c c02Case, panicIsFailure bool) Verdict {
 	}
 	var log []string
 	registerProbes(dr, &log)
+	dr.AddFunction("setvar", func(args []*variable.Value) (*variable.Value, error) {
+		v, _, err := probeCallSet("setvar", toMvals(args), &log, func(name string, v mval) { storer.SetNumberValue(name, v.N) })
+		if err != nil {
+			return nil, err
+		}
+		return fromMval(v), nil
+	})
 	var captured []mval
 	dr.AddFunction("cap", func(args []*variable.Value) (*variable.Value, error) {
 		captured = append(captured, toMvals(args)...)
@@ -322,18 +348,22 @@ func (g *exprGen) atom(want byte) *Expr {
 	t := g.t
 	switch want {
 	case 'n':
-		switch rapid.IntRange(0, 5).Draw(t, "natom") {
+		switch rapid.IntRange(0, 6).Draw(t, "natom") {
 		case 0, 1:
-			return num(rapid.SampledFrom([]string{"0", "1", "2", "3", "7", "10", "007", "1.50", "0.5", "2.25", "100", "123456789012345678901234567890", "0.1", "0.2",
+			return num(rapid.SampledFrom([]string{"0", "1", "2", "3", "7", "10", "007", "010", "0451", "0100", "017", "08", "00012", "0.50", "1.50", "0.5", "2.25", "100", "123456789012345678901234567890", "0.1", "0.2",
 				"0.3", "0.7", "0.9", "1.1", "4.35", "0.30000000000000004", "0.9999999999999999", "2.9999999999999996", "1.0000000000000002",
 				"2147483648", "4294967296", "9007199254740991", "9007199254740992", "9007199254740993", "4611686018427387904",
 				"9223372036854775807", "9223372036854775808", "18446744073709551615", "18446744073709551616", "36893488147419103232",
 				"2" + strings.Repeat("0", 308), "17976931348623157" + strings.Repeat("0", 292), "0." + strings.Repeat("0", 330) + "1"}).Draw(t, "lit"))
 		case 2, 3:
 			return varRef(rapid.SampledFrom([]string{"n1", "n2", "n3"}).Draw(t, "var"))
-		default:
+		case 4:
 			g.probeID++
 			return call("pn", str(fmt.Sprint("p", g.probeID)), num(rapid.SampledFrom([]string{"0", "1", "2", "5", "0.5"}).Draw(t, "lit")))
+		default:
+			// host code that writes a variable in the middle of the expression: reads to its left saw the old value,
+			// reads to its right see the new one
+			return call("setvar", str(rapid.SampledFrom([]string{"n1", "n2", "n3"}).Draw(t, "target")), num(rapid.SampledFrom([]string{"0", "1", "9", "2.5", "100"}).Draw(t, "written")))
 		}
 	case 'b':
 		switch rapid.IntRange(0, 5).Draw(t, "batom") {
